@@ -55,8 +55,8 @@ func (w *world) start(image map[string][]byte) error {
 }
 
 // clone starts an independent process on a copy of an image (used by the monitor's restart probe).
-func (w *world) clone(image map[string][]byte) (*world, error) {
-	c := &world{mode: w.mode, max: w.max, id: w.id}
+func (w *world) clone(image map[string][]byte, max int) (*world, error) {
+	c := &world{mode: w.mode, max: max, id: w.id}
 	err := c.start(image)
 	return c, err
 }
@@ -69,6 +69,8 @@ func classify(err error) string {
 		return "err:id"
 	case errors.Is(err, single.ErrQueueFull):
 		return "err:full"
+	case errors.Is(err, hx.ErrInjected):
+		return "err:store" // an injected datastore fault came back through the call
 	default:
 		return "err:other"
 	}
@@ -153,6 +155,27 @@ func argList(o hx.Op, k string) ([][]byte, bool) {
 	b, err := hx.UnHexList(o.Str(k))
 	return b, err == nil
 }
+// argOptNat: an optional small decimal argument (present=false if absent; ok=false if malformed) – as Drv.C10.optNat?
+func argOptNat(o hx.Op, k string) (n int, present, ok bool) {
+	if !o.Has(k) {
+		return 0, false, true
+	}
+	v := o.Str(k)
+	if v == "" {
+		return 0, true, false
+	}
+	for _, ch := range v {
+		if ch < '0' || ch > '9' {
+			return 0, true, false
+		}
+	}
+	u, err := strconv.ParseUint(v, 10, 64)
+	if err != nil || u >= maxBound {
+		return 0, true, false
+	}
+	return int(u), true, true
+}
+
 func argAt(o hx.Op) (int, bool) {
 	switch o.Str("at") {
 	case "0":
@@ -213,9 +236,14 @@ func (r *runner) reset(mode string, max int, id []byte) {
 	r.m = newMonitor(r.c, r.w)
 }
 
-// restartAt restarts the process on the image after the first n atomic writes.
-func (r *runner) restartAt(n int) {
+// restartAt restarts the process on the image after the first n atomic writes; newMax >= 0: with that queue bound
+// (the operator changed maxQueueSize between two lives of the node).
+func (r *runner) restartAt(n int, newMax int) {
 	img := r.w.ds.ImageAt(n)
+	if newMax >= 0 {
+		r.w.max = newMax
+		r.c.Hit("restart:new-bound")
+	}
 	r.m.beforeRestart(img)
 	if err := r.w.start(img); err != nil {
 		r.c.Report("C10/start/"+classify(err), "the sequencer does not restart: "+err.Error())
@@ -228,7 +256,9 @@ func (r *runner) drain(id []byte) string {
 	for i := 0; i < 1<<20; i++ {
 		before := r.w.ds.Image()
 		nb := r.w.ds.NumWrites()
+		fd := r.w.ds.FailDelete
 		txs, out := r.w.next(id)
+		r.noteFaults(fd)
 		r.m.onNext(id, txs, out, before, nb)
 		r.m.afterOp() // every single call is an operation of its own for the crash-point probes
 		if txs == nil {
@@ -242,6 +272,14 @@ func (r *runner) drain(id []byte) string {
 		s = strings.Join(got, ";")
 	}
 	return "drained=" + s + " last=" + last + " " + showDisk(r.w.ds.Image())
+}
+
+// noteFaults tells the monitor that an injected Delete fault was consumed by the last call (fd = counter before it).
+func (r *runner) noteFaults(fd int) {
+	if r.w.ds.FailDelete < fd {
+		r.m.onFailedDelete()
+		r.c.Hit("fault:delete-failed")
+	}
 }
 
 func (r *runner) exec(o hx.Op) (line string) {
@@ -284,17 +322,37 @@ func (r *runner) exec(o hx.Op) (line string) {
 			return "bad-op"
 		}
 		before, nb := w.ds.Image(), w.ds.NumWrites()
+		fd := w.ds.FailDelete
 		txs, out := w.next(id)
+		r.noteFaults(fd)
 		r.c.Hit("next:" + strings.SplitN(out, "=", 2)[0])
 		r.m.onNext(id, txs, out, before, nb)
 		return out + " " + showDisk(w.ds.Image())
 	case "restart":
-		r.restartAt(w.ds.NumWrites())
+		n, present, ok := argOptNat(o, "max")
+		if !ok {
+			return "bad-op"
+		}
+		if !present {
+			n = -1
+		}
+		r.restartAt(w.ds.NumWrites(), n)
+		return "ok " + showDisk(r.w.ds.Image())
+	case "fail":
+		// arm the datastore double: the next put= single Puts / del= single Deletes of this process fail
+		p, _, ok1 := argOptNat(o, "put")
+		d, _, ok2 := argOptNat(o, "del")
+		if !ok1 || !ok2 {
+			return "bad-op"
+		}
+		w.ds.FailPut, w.ds.FailDelete = p, d
+		r.c.Hit(fmt.Sprintf("fail:put=%v,del=%v", p > 0, d > 0))
 		return "ok " + showDisk(w.ds.Image())
 	case "load":
 		if seq {
 			return "bad-op"
 		}
+		w.ds.FailPut, w.ds.FailDelete = 0, 0 // a (re)load starts with a healthy datastore (as a restart does)
 		r.m.beforeRestart(w.ds.Image())
 		if err := w.q.Load(context.Background()); err != nil {
 			r.c.Report("C10/start/load-"+classify(err), "Load failed: "+err.Error())
@@ -304,8 +362,12 @@ func (r *runner) exec(o hx.Op) (line string) {
 		at, ok0 := argAt(o)
 		id, ok1 := argBytes(o, "id")
 		txs, ok2 := argList(o, "txs")
-		if !seq || !ok0 || !ok1 || !ok2 {
+		newMax, present, ok3 := argOptNat(o, "max")
+		if !seq || !ok0 || !ok1 || !ok2 || !ok3 {
 			return "bad-op"
+		}
+		if !present {
+			newMax = -1
 		}
 		before, nb := w.ds.Image(), w.ds.NumWrites()
 		out := w.submit(id, txs)
@@ -314,19 +376,23 @@ func (r *runner) exec(o hx.Op) (line string) {
 			// the process dies after the operation's write(s) became durable, before the answer is seen
 			r.m.onSubmit(id, txs, out, before, nb)
 			r.m.afterOp()
-			r.restartAt(nb + nw)
+			r.restartAt(nb+nw, newMax)
 		} else {
 			// the process dies before the operation's first write became durable
 			r.m.onLostSubmit(txs)
-			r.restartAt(nb)
+			r.restartAt(nb, newMax)
 		}
 		r.c.Hit(fmt.Sprintf("crash-submit:at%d:%s", at, out))
-		return "crashed ret=" + out + " " + showDisk(w.ds.Image())
+		return "crashed ret=" + out + " " + showDisk(r.w.ds.Image())
 	case "crash-next":
 		at, ok0 := argAt(o)
 		id, ok1 := argBytes(o, "id")
-		if !seq || !ok0 || !ok1 {
+		newMax, present, ok3 := argOptNat(o, "max")
+		if !seq || !ok0 || !ok1 || !ok3 {
 			return "bad-op"
+		}
+		if !present {
+			newMax = -1
 		}
 		nb := w.ds.NumWrites()
 		txs, out := w.next(id)
@@ -334,13 +400,13 @@ func (r *runner) exec(o hx.Op) (line string) {
 		if at == 1 {
 			// the process dies after the call's write (the Delete) became durable and BEFORE the call returns:
 			// the caller never receives the batch - nothing was handed out
-			r.m.onCrashedNext(id, txs, out, nb)
-			r.restartAt(nb + nw)
+			r.m.onCrashedNext(id, txs, out, nb, nw > 0)
+			r.restartAt(nb+nw, newMax)
 		} else {
-			r.restartAt(nb) // nothing was handed out, nothing was deleted
+			r.restartAt(nb, newMax) // nothing was handed out, nothing was deleted
 		}
 		r.c.Hit(fmt.Sprintf("crash-next:at%d:%s", at, strings.SplitN(out, "=", 2)[0]))
-		return "crashed ret=" + out + " " + showDisk(w.ds.Image())
+		return "crashed ret=" + out + " " + showDisk(r.w.ds.Image())
 	case "drain":
 		id, ok := argBytes(o, "id")
 		if !seq || !ok {
